@@ -19,7 +19,7 @@ from WallGo.exceptions import WallGoError
 
 from symx import axioms, core, npx
 from symx.core import AND, OR, Cond, Sym, close, eq, ge, gt, le, lt, ne
-from symx.harness import HarnessDef
+from symx.harness import HarnessDef, bare
 from props.hydrokit import Result, ScipyStubs, ThermoStub, tolerance_claims
 
 EXPLANATION = __doc__
@@ -85,7 +85,7 @@ def make_hydro(h, stubs=None, tranges=None, free_guess=False):
     h.patch(HY, float=sy, np=npx.NP())
     Tn = h.real("Tn", 0.01, 1e4, default=1.0)
     th = ThermoStub(h, Tn, tranges=tranges)
-    hy = HY.Hydrodynamics.__new__(HY.Hydrodynamics)
+    hy = bare(HY.Hydrodynamics)
     hy.thermodynamics = th
     hy.Tnucl = Tn
     tmin = h.real("tmin", 0.01, 1, default=0.5)
@@ -211,7 +211,7 @@ def h_template_boundaries(h):
     """Template model: findHydroBoundaries builds c1, c2 from its own EOS
     w+ = wFromAlpha(alpha+) * wN, p+ from the template pressure."""
     h.patch(HT, float=npx.symfloat, np=npx.NP(), pow=core.sym_pow)
-    t = HT.HydrodynamicsTemplateModel.__new__(HT.HydrodynamicsTemplateModel)
+    t = bare(HT.HydrodynamicsTemplateModel)
     t.cs2 = h.real("cs2", 0.05, 0.5, default=1 / 3)
     t.cb2 = h.real("cb2", 0.05, 0.5, default=0.3)
     t.alN = h.real("alN", 1e-3, 0.3, default=0.05)
@@ -258,6 +258,15 @@ HARNESSES = [
                timeout_s=60, axioms=AX,
                encodes=[HT.HydrodynamicsTemplateModel.findHydroBoundaries], random_validation=2, concrete_alarms=False),
 ]
+
+
+def _late():
+    # findMatching is where the exact (flux-conserving) matching is abandoned for the template's
+    # approximate one: the decision logic (shared with C03; c03 imports this module) belongs here too
+    from props.c03 import h_findmatching, AX as AX3
+    HARNESSES.append(HarnessDef(
+        "findMatching-exact-unless-impossible", h_findmatching, [dict()], max_paths=300, timeout_s=60, axioms=AX3,
+        encodes=[HY.Hydrodynamics.findMatching], random_validation=0, concrete_alarms=False))
 
 MANIFEST = {
     "text": "For every wall velocity, nucleation temperature, temperature window and every EOS "
